@@ -43,7 +43,8 @@ def _c20_nontrivial(r):
 def c20(run):
     run.rule = ("events = CharSet calls on every pair (triple for inter_list) of intervals of a 7-block embedding of "
                 "0..6 into 0..0x2FFFF under several seeded block layouts, plus seeded random real intervals with "
-                "+-1 neighbours; non-trivial = distinct record whose operands differ (pairs), >= 2 operands (lists), "
+                "+-1 neighbours, plus every interval between two of 22 landmark code points (ends of narrower character "
+                "types, surrogate block, U+FFFD, planes); non-trivial = distinct record whose operands differ (pairs), >= 2 operands (lists), "
                 "or any point/unary query")
     run.assumptions = ["region lemma (checked by MC_Chars for every candidate result on 0..4): quantifying over "
                        "region representatives equals quantifying over all 196608 characters",
@@ -691,7 +692,9 @@ def c10(run):
     run.rule = ("cases = str_replace_re and str_replace_re_all (SMT-LIB-named wrappers, fresh and long-lived "
                 "thread-local managers) for every pattern of depth <= 1 over {none,eps,a,b,[a-b],allchar,all}, a "
                 "stratified sample of depth 2 and seeded random patterns, on every subject of length <= 3 and a "
-                "sample of length 4 (5 thorough) over {a,b}, replacements {eps, X, ab}; oracle: leftmost-then-shortest "
+                "sample of length 4 (5 thorough) over {a,b}, replacements {eps, X, ab}; overlapping / competing / literal / "
+                "boundary-letter families; loops over every class of three letters x<y<z (intervals and {x,z}) next to "
+                "every class, all subjects up to length 4 over x,y,z; oracle: leftmost-then-shortest "
                 "search over the residual automaton (checked against the SMT-LIB clause on Matches by MC_Regex); "
                 "non-trivial = distinct pattern record of depth >= 1")
     run.assumptions = list(REGEX_ASSUME)
